@@ -106,7 +106,8 @@ def loop_keys(func, qual, kind=ast.While):
     lines, start = inspect.getsourcelines(func)
     tree = ast.parse(textwrap.dedent(''.join(lines)))
     tag = 'while' if kind is ast.While else 'for'
-    return [(qual, '%s@%d' % (tag, n.lineno + start - 1)) for n in ast.walk(tree) if isinstance(n, kind)]
+    lines = sorted(n.lineno for n in ast.walk(tree) if isinstance(n, kind))      # source order
+    return [(qual, '%s@%d' % (tag, ln + start - 1)) for ln in lines]
 
 
 def unroll_varint(I, read_iters=None, send_iters=None):
